@@ -63,9 +63,9 @@ def main():
     sc = vc.scratch(PROP)
     rt = native.ReplayTool(sc)
     rt.start_build()
-    R = mcheck.MRun(vc.REPO, sc, 'codegen', max_depth=60)
+    R = mcheck.MRun(vc.REPO, sc, 'codegen', max_depth=60, max_paths=20000 if tier == 'quick' else 150000)
     cands = K.k_type_conditions(R) + K.k_resolve_selection(R) + K.k_resolve_document(R) + K.k_resolve_selection_sets(R, 2 if tier == 'quick' else 3)
-    for F, S in ([(2, 2)] if tier == 'quick' else [(2, 2), (3, 2), (2, 3)]):
+    for F, S in ([(2, 2)] if tier == 'quick' else [(2, 2), (2, 3)]):
         cands += K.k_typename_presence(R, F, S)
     cands = [c for c in cands if c['prop'] == 'C06']
 
@@ -138,7 +138,7 @@ def main():
     coverage = dict(
         states=R.paths, transitions=R.vm.queries, traces_validated_against_impl=replayed, samples=R.samples[:6] + native_facts[:6],
         obligations=R.obligations, discharged=R.discharged,
-        bounds=dict(schema='2 objects, 1 interface, 1 union, symbolic implements / membership', positions='validate_typename_presence on fragment graphs (2x2 [3x2, 2x3]); one spread under one parent; one field with empty / non-empty sub-selection; query::resolve end to end on two document templates (repeated spread under two symbolic parents; 2 [3] selections of symbolic kind and free names under a symbolic parent)'),
+        bounds=dict(schema='2 objects, 1 interface, 1 union, symbolic implements / membership', positions='validate_typename_presence on fragment graphs (2x2 [2x3]); one spread under one parent; one field with empty / non-empty sub-selection; query::resolve end to end on two document templates (repeated spread under two symbolic parents; 2 [3] selections of symbolic kind and free names under a symbolic parent)'),
         outside_bounds='name lookups and the text parser (sampled natively above), deeper nesting of the invalid position, type conditions under field / inline-fragment parents',
         engine=R.evidence(), cross_check=cross, exhaustive=False)
     vc.write_evidence(PROP, 'model_checking', coverage,
